@@ -76,4 +76,54 @@ theorem unmarshalField_inRange (s : DSignal) (d : Data) (h : SigOk s) :
       simp only [Bool.and_eq_true, decide_eq_true_eq]
       exact ⟨lo, Int.le_sub_one_of_lt hi⟩
 
+/-- mapping a range-preserving update over the fields keeps the shape and the range invariant -/
+theorem inv_zip_map (g : DSignal → Raw → Raw) :
+    ∀ (sigs : List DSignal) (vals : List Raw), vals.length = sigs.length →
+    (sigs.zip vals).all (fun p => rawInRange p.1 p.2) = true →
+    (∀ s v, s ∈ sigs → rawInRange s v = true → rawInRange s (g s v) = true) →
+    ((sigs.zip vals).map (fun p => g p.1 p.2)).length = sigs.length ∧
+    (sigs.zip ((sigs.zip vals).map (fun p => g p.1 p.2))).all (fun p => rawInRange p.1 p.2) = true := by
+  intro sigs
+  induction sigs with
+  | nil => intro vals _ _ _; simp
+  | cons t ts ih =>
+    intro vals hlen hall hg
+    cases vals with
+    | nil => simp at hlen
+    | cons u us =>
+      simp only [List.zip_cons_cons, List.all_cons, Bool.and_eq_true, List.map_cons, List.length_cons] at hall ⊢
+      obtain ⟨h1, h2⟩ := ih us (by simpa using hlen) hall.2 (fun s v hs hv => hg s v (List.mem_cons_of_mem _ hs) hv)
+      exact ⟨by rw [h1], hg t u (List.mem_cons_self ..) hall.1, h2⟩
+
+/-- a successful `UnmarshalFrame` leaves every field inside its representable range -/
+theorem unmarshalFrame_inv (m : DMessage) (st st' : GState) (f : Frame)
+    (hok : ∀ s ∈ m.signals, SigOk s) (hinv : Inv m st = true) (h : unmarshalFrame m st f = some st') :
+    Inv m st' = true := by
+  unfold Inv at hinv ⊢
+  simp only [Bool.and_eq_true, beq_iff_eq] at hinv ⊢
+  obtain ⟨hlen, hall⟩ := hinv
+  unfold unmarshalFrame at h
+  split at h
+  · cases h
+  · split at h
+    · cases h; exact ⟨hlen, hall⟩
+    · simp only [Option.some.injEq] at h
+      subst h
+      have step1 := inv_zip_map (fun s v => if s.muxed then v else unmarshalField s f.data) m.signals st.vals hlen hall
+        (by intro s v hs hv; split
+            · exact hv
+            · exact unmarshalField_inRange s f.data (hok s hs))
+      cases hm : muxOf m with
+      | none => exact ⟨step1.1, step1.2⟩
+      | some mi =>
+        have step2 := inv_zip_map
+          (fun s v => if (s.muxed && (((m.signals.zip st.vals).map fun (p : DSignal × Raw) =>
+              if p.1.muxed then p.2 else unmarshalField p.1 f.data).getD mi.1 0 == (s.muxValue : Int))) = true
+            then unmarshalField s f.data else v)
+          m.signals _ step1.1 step1.2
+          (by intro s v hs hv; split
+              · exact unmarshalField_inRange s f.data (hok s hs)
+              · exact hv)
+        exact ⟨step2.1, step2.2⟩
+
 end CanVerif
